@@ -213,14 +213,14 @@ func init() {
 				var cs []fw.Case
 				nr := 8
 				if !ctx.Quick {
-					nr = 30
+					nr = 120
 				}
 				for i := 0; i < nr; i++ {
 					cs = append(cs, fw.Case{ID: fmt.Sprintf("real/%d", i), Kind: "real", P: map[string]any{"i": i}})
 				}
 				nreuse := 12
 				if !ctx.Quick {
-					nreuse = 150
+					nreuse = 400
 				}
 				for i := 0; i < nreuse; i++ {
 					cs = append(cs, fw.Case{ID: fmt.Sprintf("reuse/%d", i), Kind: "reuse", P: map[string]any{"i": i}})
@@ -241,6 +241,11 @@ func init() {
 								continue
 							}
 							cs = append(cs, fw.Case{ID: fmt.Sprintf("synth/ch%d/qdf%d/routed%d", nch, qdf, w), Kind: "synth", P: map[string]any{"nch": nch, "qdf": qdf, "routed": w}})
+							if !ctx.Quick {
+								for rep := 1; rep <= 3; rep++ {
+									cs = append(cs, fw.Case{ID: fmt.Sprintf("synth/ch%d/qdf%d/routed%d/rep%d", nch, qdf, w, rep), Kind: "synth", P: map[string]any{"nch": nch, "qdf": qdf, "routed": w}})
+								}
+							}
 						}
 					}
 				}
